@@ -264,8 +264,23 @@ pub fn scenario(g: &mut G, ctx: &RunCtx) -> RunReport {
         if let Some(v) = &np_upper {
             sim.set_env("NO_PROXY", v);
         }
+        // observation 2: a request that takes its proxy settings from the environment by default (free
+        // function or a fresh session) - the peer it dials.  Nothing listens; the dial is what counts.
+        let origin_ip: IpAddr = "10.0.1.1".parse().unwrap();
+        if let url::Host::Domain(d) = url.host().unwrap() {
+            sim.add_host(d, vec![origin_ip]);
+        }
+        sim.add_host("proxy1.test", vec!["10.0.0.8".parse().unwrap()]);
+        sim.add_host("proxy2.test", vec!["10.0.0.7".parse().unwrap()]);
+        sim.add_host("allproxy.test", vec!["10.0.0.6".parse().unwrap()]);
+        let via_session = g.chance(1, 2);
         let u2 = url.clone();
-        let out = sim.run(move || attohttpc::ProxySettings::from_env().for_url(&u2).map(|u| u.to_string()));
+        let u3 = url_s.clone();
+        let out = sim.run(move || {
+            let r = attohttpc::ProxySettings::from_env().for_url(&u2).map(|u| u.to_string());
+            let _ = if via_session { attohttpc::Session::new().get(&u3).send() } else { attohttpc::get(&u3).send() };
+            r
+        });
         stats.absorb(&out.history);
         let get = |k: &str| vals.iter().find(|(n, _)| *n == k).map(|(_, v)| v.clone()).unwrap();
         let specific = if scheme == "http" { effective(&get("http_proxy"), &get("HTTP_PROXY")) } else { effective(&get("https_proxy"), &get("HTTPS_PROXY")) };
@@ -306,13 +321,42 @@ pub fn scenario(g: &mut G, ctx: &RunCtx) -> RunReport {
                 }
             }
         })();
+        let dial_v = match (&want, out.history.connects.first()) {
+            (Want::DontCare, _) | (_, None) => Verdict::Pass,
+            (w, Some(c)) => {
+                let want_addr = match w {
+                    Want::Proxy(p) => {
+                        let pu = Url::parse(p).unwrap();
+                        let ip = match pu.host_str().unwrap() {
+                            "proxy1.test" => "10.0.0.8",
+                            "proxy2.test" => "10.0.0.7",
+                            _ => "10.0.0.6",
+                        };
+                        format!("{}:{}", ip, pu.port_or_known_default().unwrap())
+                    }
+                    _ => match url.host().unwrap() {
+                        url::Host::Domain(_) => format!("{}:{}", origin_ip, url.port_or_known_default().unwrap()),
+                        url::Host::Ipv4(a) => format!("{}:{}", a, url.port_or_known_default().unwrap()),
+                        url::Host::Ipv6(a) => format!("[{}]:{}", a, url.port_or_known_default().unwrap()),
+                    },
+                };
+                if c.addr.to_string() != want_addr {
+                    violation(
+                        if matches!(w, Want::Proxy(_)) { "env:default-settings-dialled-wrong-peer:want-proxy" } else { "env:default-settings-dialled-wrong-peer:want-direct" },
+                        format!("a request with default settings ({}) for {} dialled {}, expected {} (env {:?}, no_proxy={:?} NO_PROXY={:?})", if via_session { "fresh session" } else { "free function" }, url_s, c.addr, want_addr, vals.iter().map(|(k, v)| (k, v.text())).collect::<Vec<_>>(), np_lower, np_upper),
+                    )
+                } else {
+                    Verdict::Pass
+                }
+            }
+        };
         verdict = match &out.result {
             None => violation("hang", "torn down"),
             Some(Err(m)) => violation("panic", m.clone()),
             Some(Ok(got)) => match (&want, got) {
                 (Want::DontCare, _) => Verdict::Pass,
-                (Want::Proxy(p), Some(g2)) if p == g2 => Verdict::Pass,
-                (Want::Direct, None) => Verdict::Pass,
+                (Want::Proxy(p), Some(g2)) if p == g2 => dial_v,
+                (Want::Direct, None) => dial_v,
                 (Want::Proxy(p), other) => {
                     let entries: Vec<&str> = np.as_deref().unwrap_or("").split(',').collect();
                     let why = if entries.iter().any(|e| e.trim().trim_start_matches('.').is_empty()) && np.is_some() { "empty-entry" } else if other.is_some() { "wrong-proxy" } else { "suffix-only-match-or-precedence" };
